@@ -1161,6 +1161,18 @@ theorem installed_height_stays_in_range (s s' : St) (p : Proposal) (c : CState) 
   obtain ⟨hC, _⟩ := installs_exactly s s' p c k hc hks h
   exact latest_never_decreases_lex p.name c.latest ops hno s' ⟨c, hC, hty, lt_irrefl _⟩
 
+/-- **the stateless stage of an update accepts an app hash of ANY length** (a Tendermint app hash is arbitrary bytes:
+    1, 8, 20, 31, 32, 33, 64 …): whether `MsgUpdateClient.ValidateBasic` passes does not depend on it, and a header whose
+    other free-form fields are well formed passes -/
+theorem update_stateless_accepts_any_apphash_len (n d e l p : Nat) :
+    tmHeaderStateless { appHash := n, data := d, evidence := e, lastResults := l, proposer := p } =
+      tmHeaderStateless { appHash := 32, data := d, evidence := e, lastResults := l, proposer := p } ∧
+    (hashLenOk d = true → hashLenOk e = true → hashLenOk l = true → p = 20 →
+      tmHeaderStateless { appHash := n, data := d, evidence := e, lastResults := l, proposer := p } = true) := by
+  refine ⟨rfl, ?_⟩
+  intro hd he hl hp
+  simp [tmHeaderStateless, hd, he, hl, hp]
+
 /-! ### an invalid proposal changes nothing (stated over the composition: submission stage, then handler) -/
 
 /-- the content fails the stateless stage: bad chain name, a client state that does not unpack or fails `Validate()`,
